@@ -20,7 +20,7 @@ META = {
     "engine": "E3 reference model (real entry points, digest call log)",
     "rule": (
         "seeded random plugin sets (0-8 plugins) with random acyclic before/after constraint graphs "
-        "(both directions, redundant edges, 0-3 constraint names that are not installed, plugins "
+        "(both directions, redundant edges, declared as lists / tuples / sets / one-shot iterators and generators, 0-3 constraint names that are not installed, plugins "
         "with and without declared requirements), required flags, and configuration mappings over "
         "random subsets of the sections, optionally with unknown sections and a logging section, "
         "given as a mapping or through a YAML file; digest results None / falsy / objects. "
@@ -70,6 +70,7 @@ def gen_case(rnd, spec):
             "after": after,
             "result": rnd.choice([None, None, 0, "", [], False, {"k": 1}, "obj", 7]),
             "plain": not before and not after and rnd.random() < 0.4,
+            "iterable": rnd.choice(["list", "list", "tuple", "set", "iter", "generator", "map", "dictkeys"]),
         })
         if plugins[-1]["plain"]:
             plugins[-1]["required"] = False
